@@ -11,6 +11,9 @@ request  {"q":{"nos":[n…],"names":[n…],"hws":[n…]},
 A message carrying "seen" asks for a snapshot of every view of `con.ports` / `con.original_ports` after it; "seen" lists, for
 each queried name / address, the number of the port the implementation returned (the iteration order of a Python set is not
 modelled: when several ports carry the attribute the model accepts any of them and otherwise answers with its own first).
+Optional "hs":[{"t":"features",…}|{"t":"status",…}…] are the messages of the handshake phase (run through `hsStep`; the
+connection comes up with `hsFinish`), "seen0" asks for a snapshot right after the handshake, "copy":true adds the views of
+`ports.copy()` to every snapshot.  "raws" in the response is the RawStatsReply raised per message ([xid,type,more] or null).
 response {"outs":[null | {"type","stats","xids"} | {"raised":…} per message], "snaps":[…per message with "seen"…]} -/
 
 def portOf (j : J) : Except String Port := do
@@ -57,13 +60,38 @@ def snapChain (ch : List PC) (nos names hws : List Nat) (sName sHw : List (Optio
         (pre ++ "in_hw", J.arr (hws.map fun a => J.bool (containsC ch (.hw a)))),
         (pre ++ "values", vals), (pre ++ "items", items)]
 
-def snap (v : View) (q seen : J) : Except String J := do
+def snapCopy (ch : List PC) (nos : List Nat) : List (String × J) :=
+  match copyC ch with
+  | none => [("copy", J.str "IndexError")]
+  | some c =>
+    [("copy", J.mk [("keys", J.ofNats ((keysC [c]).mergeSort (· ≤ ·))), ("len", J.ofNat (lenC [c])),
+                    ("no", J.arr (nos.map fun k => jOptPort (getItemC [c] (.no k)))),
+                    ("masks", J.ofNats c.masks),
+                    ("values", match valuesC [c] with
+                      | some vs => J.arr ((vs.mergeSort (fun a b => a.no ≤ b.no)).map jPort)
+                      | none => J.str "IndexError")])]
+
+def snap (v : View) (q seen : J) (withCopy : Bool) : Except String J := do
   let nos ← q.nats "nos"
   let names ← q.nats "names"
   let hws ← q.nats "hws"
   let a ← snapChain v.chain nos names hws (← optNats (← seen.get "name")) (← optNats (← seen.get "hw")) ""
   let b ← snapChain v.origChain nos names hws (← optNats (← seen.get "oname")) (← optNats (← seen.get "ohw")) "o"
-  pure (J.mk (a ++ b))
+  let dflt : Port := ⟨0, 0, 0, 0⟩
+  let g := [("get", J.arr (nos.map fun k => jOptPort (getC v.chain (.no k) none))),
+            ("get_dflt", J.arr (nos.map fun k => jOptPort (getC v.chain (.no k) (some dflt)))),
+            ("has_key", J.arr (nos.map fun k => J.bool (hasKeyC v.chain (.no k))))]
+  pure (J.mk (a ++ b ++ g ++ (if withCopy then snapCopy v.chain nos else [])))
+
+def hmsgOf (j : J) : Except String HMsg := do
+  match ← j.string "t" with
+  | "features" => pure (.features (← (← j.array "ports").mapM portOf))
+  | "status" => pure (.status (← j.nat "reason") (← portOf (← j.get "port")))
+  | t => .error s!"unknown handshake message kind {t}"
+
+def jRaw : Option Part → J
+  | some p => J.arr [J.ofNat p.xid, J.ofNat p.type, J.bool p.more]
+  | none => J.null
 
 def msgOf (j : J) : Except String Msg := do
   match ← j.string "t" with
@@ -82,17 +110,32 @@ def jOut : Out → J
 def handle (j : J) : Except String J := do
   let q ← j.get "q"
   let msgs ← j.array "msgs"
+  let withCopy := match j.get? "copy" with
+    | some (J.bool b) => b
+    | _ => false
   let mut c := Conn.init
   let mut outs : List J := []
+  let mut raws : List J := []
   let mut snaps : List J := []
+  match j.get? "hs" with
+  | some hs =>
+    let mut hc := HConn.init
+    for hj in ← hs.asArr do
+      hc := hsStep hc (← hmsgOf hj)
+    c := { c with view := hsFinish hc }
+  | none => pure ()
+  match j.get? "seen0" with
+  | some s => snaps := snaps ++ [← snap c.view q s withCopy]
+  | none => pure ()
   for mj in msgs do
     let m ← msgOf mj
     let r := deliver c m
     c := r.1
     outs := outs ++ [jOut r.2]
+    raws := raws ++ [jRaw (rawOf m)]
     match mj.get? "seen" with
-    | some s => snaps := snaps ++ [← snap c.view q s]
+    | some s => snaps := snaps ++ [← snap c.view q s withCopy]
     | none => pure ()
-  pure (J.mk [("outs", J.arr outs), ("snaps", J.arr snaps)])
+  pure (J.mk [("outs", J.arr outs), ("raws", J.arr raws), ("snaps", J.arr snaps)])
 
 def main : IO Unit := serve handle
